@@ -58,7 +58,11 @@ class IOGen:
         return f"ㄱㅇ{E(s.R.choice(idx))}" if idx else None
     def leaf(s, ctx):
         R = s.R; s.leaves += 1
-        k = R.choice(["print", "read", "ret", "printx", "retx", "act", "act"])
+        k = R.choice(["print", "read", "ret", "printx", "retx", "act", "act", "retbad"])
+        if k == "retbad":      # ㄱㅅ evaluates its argument COMPLETELY when the action is built: a failing part deep inside a container fails there (inside the
+            # bound action if that is where the ㄱㅅ stands - so a handler gets it), not later when somebody looks at the part
+            x = s.ref(ctx, "val"); bad = R.choice(["(ㄴ ㄱ ㄴㄴㅎㄷ)", "(ㄴ ㄷㅂㅎㄴ ㄷㅈㅎㄴ)"] + ([f"(ㄴ ({x} ㅅㅅㅎㄴ) ㄴㄴㅎㄷ)", f"({x} ㅈㄷㅎㄴ)"] if x else []))
+            return R.choice([f"(({bad} ㄱ ㅁㄹㅎㄷ) ㄱㅅㅎㄴ)", f"((ㄴ {bad} ㅅㅈㅎㄷ) ㄱㅅㅎㄴ)", f"((ㄱ ({bad} ㅁㄹㅎㄴ) ㅁㄹㅎㄷ) ㄱㅅㅎㄴ)", f"((ㄱ {bad} ㄷㅂㅎㄷ) ㄱㅅㅎㄴ)"])
         if k == "act":
             a = s.ref(ctx, "act")
             if a: s.shared_uses += 1; return f"({a})"
